@@ -6,6 +6,15 @@ from ..rule import rule, predicate, dimension, _regex_to_join
 from ..types import Time, Duration, Interval, pod_hours, RegexMatch, DurationUnit
 
 
+def _is_valid_date(year: Optional[int], month: int, day: int) -> bool:
+    """True iff *day* exists in *month* of *year* (of a leap year if there is no year)"""
+    try:
+        datetime(year if year is not None else 2000, month, day)
+    except ValueError:
+        return False
+    return True
+
+
 @rule(
     r"at|on|am|um|gegen|den|dem|der|the|ca\.?|approx\.?|about|(in|of)( the)?|around",
     dimension(Time),
@@ -262,17 +271,23 @@ def ruleEOY(ts: datetime, _: RegexMatch) -> Time:
 
 
 @rule(predicate("isDOM"), predicate("isMonth"))
-def ruleDOMMonth(ts: datetime, dom: Time, m: Time) -> Time:
+def ruleDOMMonth(ts: datetime, dom: Time, m: Time) -> Optional[Time]:
+    if not _is_valid_date(None, m.month, dom.day):
+        return None
     return Time(day=dom.day, month=m.month)
 
 
 @rule(predicate("isDOM"), r"of", predicate("isMonth"))
-def ruleDOMMonth2(ts: datetime, dom: Time, _: RegexMatch, m: Time) -> Time:
+def ruleDOMMonth2(ts: datetime, dom: Time, _: RegexMatch, m: Time) -> Optional[Time]:
+    if not _is_valid_date(None, m.month, dom.day):
+        return None
     return Time(day=dom.day, month=m.month)
 
 
 @rule(predicate("isMonth"), predicate("isDOM"))
-def ruleMonthDOM(ts: datetime, m: Time, dom: Time) -> Time:
+def ruleMonthDOM(ts: datetime, m: Time, dom: Time) -> Optional[Time]:
+    if not _is_valid_date(None, m.month, dom.day):
+        return None
     return Time(month=m.month, day=dom.day)
 
 
@@ -301,7 +316,9 @@ def ruleDOWNextWeek(ts: datetime, dow: Time, _: RegexMatch) -> Time:
 
 
 @rule(predicate("isDOY"), predicate("isYear"))
-def ruleDOYYear(ts: datetime, doy: Time, y: Time) -> Time:
+def ruleDOYYear(ts: datetime, doy: Time, y: Time) -> Optional[Time]:
+    if not _is_valid_date(y.year, doy.month, doy.day):
+        return None
     return Time(year=y.year, month=doy.month, day=doy.day)
 
 
@@ -375,14 +392,17 @@ def ruleLatentPOD(ts: datetime, pod: Time) -> Time:
 )
 # do not allow dd.ddam, dd.ddpm, but allow dd.dd am - e.g. in the German
 # "13.06 am Nachmittag"
-def ruleDDMM(ts: datetime, m: RegexMatch) -> Time:
+def ruleDDMM(ts: datetime, m: RegexMatch) -> Optional[Time]:
     if m.match.group("month"):
         month = int(m.match.group("month"))
     else:
         for i, (name, _) in enumerate(_months):
             if m.match.group(name):
                 month = i + 1
-    return Time(month=month, day=int(m.match.group("day")))
+    day = int(m.match.group("day"))
+    if not _is_valid_date(None, month, day):
+        return None
+    return Time(month=month, day=day)
 
 
 @rule(
@@ -390,14 +410,17 @@ def ruleDDMM(ts: datetime, m: RegexMatch) -> Time:
     r"(?P<day>(?&_day))"
     r"(?!\d|am|\s*pm)".format(_rule_months)
 )
-def ruleMMDD(ts: datetime, m: RegexMatch) -> Time:
+def ruleMMDD(ts: datetime, m: RegexMatch) -> Optional[Time]:
     if m.match.group("month"):
         month = int(m.match.group("month"))
     else:
         for i, (name, _) in enumerate(_months):
             if m.match.group(name):
                 month = i + 1
-    return Time(month=month, day=int(m.match.group("day")))
+    day = int(m.match.group("day"))
+    if not _is_valid_date(None, month, day):
+        return None
+    return Time(month=month, day=day)
 
 
 @rule(
@@ -405,7 +428,7 @@ def ruleMMDD(ts: datetime, m: RegexMatch) -> Time:
     r"((?P<month>(?&_month))|(?P<named_month>({})))[-/\.]"
     r"(?P<year>(?&_year))(?!\d)".format(_rule_months)
 )
-def ruleDDMMYYYY(ts: datetime, m: RegexMatch) -> Time:
+def ruleDDMMYYYY(ts: datetime, m: RegexMatch) -> Optional[Time]:
     y = int(m.match.group("year"))
     if y < 100:
         y += 2000
@@ -415,7 +438,10 @@ def ruleDDMMYYYY(ts: datetime, m: RegexMatch) -> Time:
         for i, (name, _) in enumerate(_months):
             if m.match.group(name):
                 month = i + 1
-    return Time(year=y, month=month, day=int(m.match.group("day")))
+    day = int(m.match.group("day"))
+    if not _is_valid_date(y, month, day):
+        return None
+    return Time(year=y, month=month, day=day)
 
 
 def _is_valid_military_time(ts: datetime, t: Time) -> bool:
@@ -618,12 +644,13 @@ def ruleDateDate(ts: datetime, d1: Time, _: RegexMatch, d2: Time) -> Optional[In
 def ruleDOMDate(ts: datetime, d1: Time, _: RegexMatch, d2: Time) -> Optional[Interval]:
     if d1.day >= d2.day:
         return None
+    # d1.day < d2.day, and d2 is a date: the day exists in that month
     return Interval(t_from=Time(year=d2.year, month=d2.month, day=d1.day), t_to=d2)
 
 
 @rule(predicate("isDate"), _regex_to_join, predicate("isDOM"))
 def ruleDateDOM(ts: datetime, d1: Time, _: RegexMatch, d2: Time) -> Optional[Interval]:
-    if d1.day >= d2.day:
+    if d1.day >= d2.day or not _is_valid_date(d1.year, d1.month, d2.day):
         return None
     return Interval(t_from=d1, t_to=Time(year=d1.year, month=d1.month, day=d2.day))
 
@@ -633,6 +660,8 @@ def ruleDOYDate(ts: datetime, d1: Time, _: RegexMatch, d2: Time) -> Optional[Int
     if d1.month > d2.month:
         return None
     elif d1.month == d2.month and d1.day >= d2.day:
+        return None
+    if not _is_valid_date(d2.year, d1.month, d1.day):
         return None
     return Interval(t_from=Time(year=d2.year, month=d1.month, day=d1.day), t_to=d2)
 
